@@ -349,22 +349,21 @@ def SplineModel.plans (sm : SplineModel) : List PatchPlan :=
 def Numbered.cpOf (r : Numbered) (node : ℕ) : Option (NdArr ℤ) :=
   (r.views.getD node none).map (resolveView r.cp)
 
+/-- `cps[indices[j]] = values[j]` for one `j` (negative indices count from the end). -/
+def cpsStep (cp : Array (NdArr ℤ)) (o : Obj) (k : ℕ) (acc : Array (List ℚ)) (j : ℕ) : Except NErr (Array (List ℚ)) :=
+  let i := (cp.getD k default).data.getD j 0
+  let pos : ℤ := if i < 0 then i + acc.size else i
+  if pos < 0 ∨ pos ≥ acc.size then .error .index
+  else .ok (acc.setIfInBounds pos.toNat (o.cps.data.getD j []))
+
 /-- `SplineModel.cps()` on plain data: `cps = zeros((ncps, dimension))`, then
     `cps[indices] = values` per top node, in order.
     `controlpoints.reshape(-1, dimension)` + the fancy assignment raise `ValueError` as soon as
     the net has another number of components than `dimension` (rational patches). -/
 def cpsTable (dimension : ℕ) (objs : List Obj) (cp : Array (NdArr ℤ)) (ncps : ℕ) : Except NErr (Array (List ℚ)) :=
   objs.zipIdx.foldlM (fun (acc : Array (List ℚ)) (ok : Obj × ℕ) =>
-    let o := ok.1
-    let idxs := (cp.getD ok.2 default).data
-    if o.ncomp ≠ dimension then .error .value
-    else
-      (List.range idxs.size).foldlM (fun (acc : Array (List ℚ)) j =>
-        let i := idxs.getD j 0
-        -- negative indices count from the end
-        let pos : ℤ := if i < 0 then i + acc.size else i
-        if pos < 0 ∨ pos ≥ acc.size then .error .index
-        else .ok (acc.setIfInBounds pos.toNat (o.cps.data.getD j []))) acc)
+    if ok.1.ncomp ≠ dimension then .error .value
+    else (List.range (cp.getD ok.2 default).data.size).foldlM (cpsStep cp ok.1 ok.2) acc)
     (Array.replicate ncps (List.replicate dimension 0))
 
 /-- `SplineModel.cps()`. -/
